@@ -44,8 +44,18 @@ def sortStrs (l : List String) : List String := (l.toArray.qsort (· < ·)).toLi
 structure Oracle where
   hasFields : List String            -- names for which `global_has_fields` holds
   writeOnlyArgs : List (List String × Nat)   -- (call path, argument index) that are `observes: write`
+  mustUsePaths : List (List String) := []    -- call paths that are `must_use` library functions
 
 def readOracle : Sexp → Option Oracle
+  | .list [.list hf, .list wo, .list mu] => do
+    let hasFields ← hf.mapM Sexp.asString?
+    let writeOnlyArgs ← wo.mapM fun e => match e with
+      | .list [.list p, i] => do some (← p.mapM Sexp.asString?, ← i.asNat?)
+      | _ => none
+    let mustUsePaths ← mu.mapM fun e => match e with
+      | .list p => p.mapM Sexp.asString?
+      | _ => none
+    some { hasFields, writeOnlyArgs, mustUsePaths }
   | .list [.list hf, .list wo] => do
     let hasFields ← hf.mapM Sexp.asString?
     let writeOnlyArgs ← wo.mapM fun e => match e with
@@ -65,7 +75,8 @@ def handleTables : Handler := fun input impl =>
       let σ := analyse chunk.block
       let hasFields := fun n => oracle.hasFields.contains n
       let argObs := fun (p : List String) (i : Nat) => if oracle.writeOnlyArgs.contains (p, i) then some true else some false
-      let mdiags := undefinedVariable hasFields σ ++ unusedVariable hasFields argObs defaultIgnore true σ ++ shadowing defaultIgnore σ
+      let isMustUse := fun (p : List String) => oracle.mustUsePaths.contains p
+      let mdiags := undefinedVariable hasFields σ ++ unusedVariable hasFields argObs defaultIgnore true σ ++ shadowing defaultIgnore σ ++ mustUse isMustUse σ
       let spec := Spec.resolve chunk.block
       match impl with
       | .atom "panic" =>
@@ -82,8 +93,8 @@ def handleTables : Handler := fun input impl =>
         -- the two non-default settings: v1 = ignore_pattern "^x", allow_unused_self = false; v2 = pattern "$^" (matches no name)
         let ignoreV1 := fun (n : String) => n.startsWith "x"
         let ignoreV2 := fun (_ : String) => false
-        let mdV1 := sortStrs ((undefinedVariable hasFields σ ++ unusedVariable hasFields argObs ignoreV1 false σ ++ shadowing ignoreV1 σ).map showDiag)
-        let mdV2 := sortStrs ((undefinedVariable hasFields σ ++ unusedVariable hasFields argObs ignoreV2 true σ ++ shadowing ignoreV2 σ).map showDiag)
+        let mdV1 := sortStrs ((undefinedVariable hasFields σ ++ unusedVariable hasFields argObs ignoreV1 false σ ++ shadowing ignoreV1 σ ++ mustUse isMustUse σ).map showDiag)
+        let mdV2 := sortStrs ((undefinedVariable hasFields σ ++ unusedVariable hasFields argObs ignoreV2 true σ ++ shadowing ignoreV2 σ ++ mustUse isMustUse σ).map showDiag)
         let diagsOk := md == idk && mdV1 == sortStrs (idiagsV1.filterMap implDiagKey) && mdV2 == sortStrs (idiagsV2.filterMap implDiagKey)
         let panicOk := σ.panic.isNone
         -- ---------- specification checks on the implementation's tables / diagnostics ----------
